@@ -36,6 +36,8 @@ def project_probes(ctx, project):
             ctx.probe("overlapping_bare_patterns")
         if f.get("twin_context"):
             ctx.probe("same_context_other_pattern_in_another_file")
+        if f.get("symlink_to"):
+            ctx.probe("symlinked_pattern_file")
         if f.get("bare"):
             ctx.probe("bare_version_pattern")
         if f.get("globbed"):
